@@ -293,21 +293,21 @@ end
 mutual
 /-- The two decoders whose input is already tree shaped — `condFromStackItem` (:668-770, used by
 WitnessRule.FromStackItem) and `unmarshalConditionJSON` (:772-858) — apply the same limits while they
-descend: `admit c maxDepth` tells whether they accept the tree `c`. -/
-def admit : Cond → Nat → Bool
+descend: `admits c maxDepth` tells whether they accept the tree `c`. -/
+def admits : Cond → Nat → Bool
   | _, 0 => false                                 -- "too many nesting levels"
-  | .not c, d+1 => admit c d
-  | .and cs, d+1 => cs.length != 0 && cs.length ≤ maxSubitems && admitAll cs d
-  | .or cs, d+1 => cs.length != 0 && cs.length ≤ maxSubitems && admitAll cs d
+  | .not c, d+1 => admits c d
+  | .and cs, d+1 => cs.length != 0 && cs.length ≤ maxSubitems && admitsAll cs d
+  | .or cs, d+1 => cs.length != 0 && cs.length ≤ maxSubitems && admitsAll cs d
   | .boolean _, _+1 => true
   | .scriptHash _, _+1 => true
   | .group _, _+1 => true
   | .calledByEntry, _+1 => true
   | .calledByContract _, _+1 => true
   | .calledByGroup _, _+1 => true
-def admitAll : List Cond → Nat → Bool
+def admitsAll : List Cond → Nat → Bool
   | [], _ => true
-  | c :: cs, d => admit c d && admitAll cs d
+  | c :: cs, d => admits c d && admitsAll cs d
 end
 
 /-- the environment with another contract table (same VM state). -/
